@@ -16,6 +16,15 @@
         assert forall|i: int| 0 <= i < keys0.len() implies authmap.contains_key(&(#[trigger] keys0[i]).kid()) by {
             assert(authmap.contains_key(s_auth[i].0));
         }
+        assert(s_auth.len() == keys0.len());
+        assert(forall|i: int| 0 <= i < s_auth.len() ==> *(#[trigger] s_auth[i]).0 == keys0[i].kid() && *s_auth[i].1 == *keys0[i]);
+        assert forall|id: &KeyId| #[trigger] authmap.contains_key(id) implies last_key_idx(keys0, *id) >= 0 && *authmap[id] == *keys0[last_key_idx(keys0, *id)] by {
+            lemma_last_index_keys(s_auth, keys0, id);
+        }
+        assert forall|id: KeyId| last_key_idx(keys0, id) >= 0 implies #[trigger] authmap.contains_key(&id) by {
+            lemma_last_key_idx(keys0, id);
+            assert(authmap.contains_key(s_auth[last_key_idx(keys0, id)].0));
+        }
 //@after /let raw = self\.metadata\.to_bytes\(\)\?;/
         let ghost raw0 = raw@;
 //@after /\.replace\("\\\\n", "\\n"\);/ optional
@@ -26,6 +35,22 @@
         assert(forall|id: &KeyId| #[trigger] sigmap.contains_key(id) ==> exists|j: int| 0 <= j < self.signatures@.len() && (#[trigger] self.signatures@[j]).kid() == *id && *sigmap[id] == self.signatures@[j]);
         assert forall|j: int| 0 <= j < self.signatures@.len() implies sigmap.contains_key(&(#[trigger] self.signatures@[j]).kid()) by {
             assert(sigmap.contains_key(s_sig[j].0));
+        }
+        assert(s_sig.len() == self.signatures@.len());
+        assert(forall|j: int| 0 <= j < s_sig.len() ==> *(#[trigger] s_sig[j]).0 == self.signatures@[j].kid() && *s_sig[j].1 == self.signatures@[j]);
+        assert forall|id: &KeyId| #[trigger] sigmap.contains_key(id) implies last_sig_idx(self.signatures@, *id) >= 0 && *sigmap[id] == self.signatures@[last_sig_idx(self.signatures@, *id)] by {
+            lemma_last_index_sigs(s_sig, self.signatures@, id);
+        }
+        assert forall|id: KeyId| sig_ids(*self).contains(id) implies #[trigger] sigmap.contains_key(&id) by {
+            let m = self.signatures@.map_values(|s: Signature| s.kid());
+            let j = choose|j: int| 0 <= j < m.len() && m[j] == id;
+            assert(sigmap.contains_key(s_sig[j].0));
+        }
+        assert forall|id: &KeyId| #[trigger] sigmap.contains_key(id) implies sig_ids(*self).contains(*id) by {
+            let m = self.signatures@.map_values(|s: Signature| s.kid());
+            let j = last_sig_idx(self.signatures@, *id);
+            lemma_last_sig_idx(self.signatures@, *id);
+            assert(m[j] == *id);
         }
         let ghost mut counted: Set<KeyId> = Set::empty();
 //@loop 1 iter=it
@@ -40,6 +65,11 @@
                 forall|k: KeyId| counted.contains(k) ==> exists|i: int| 0 <= i < it.index() && *(#[trigger] it.seq()[i]).0 == k,
                 counted.len() == threshold - signatures_needed,
                 forall|k: KeyId| counted.contains(k) ==> counted_ok(*self, keys0, k),
+                forall|k: KeyId| counted.contains(k) ==> good_ids(*self, keys0).contains(k),
+                forall|id: &KeyId| #[trigger] authmap.contains_key(id) ==> last_key_idx(keys0, *id) >= 0 && *authmap[id] == *keys0[last_key_idx(keys0, *id)],
+                forall|id: KeyId| last_key_idx(keys0, id) >= 0 ==> #[trigger] authmap.contains_key(&id),
+                forall|id: &KeyId| #[trigger] sigmap.contains_key(id) ==> last_sig_idx(self.signatures@, *id) >= 0 && *sigmap[id] == self.signatures@[last_sig_idx(self.signatures@, *id)],
+                forall|id: KeyId| sig_ids(*self).contains(id) <==> #[trigger] sigmap.contains_key(&id),
                 forall|id: &KeyId| #[trigger] sigmap.contains_key(id) ==> exists|j: int| 0 <= j < self.signatures@.len() && (#[trigger] self.signatures@[j]).kid() == *id && *sigmap[id] == self.signatures@[j],
                 forall|id: &KeyId| #[trigger] authmap.contains_key(id) ==> exists|i: int| 0 <= i < keys0.len() && (#[trigger] keys0[i]).kid() == *id && authmap[id] == keys0[i],
                 authmap == authorized_keys@,
@@ -59,10 +89,21 @@
                             assert(pub_key.sig_ok(vstd::utf8::encode_utf8(metadata@), *sig));
                             assert(keys0[i0].sig_ok(signed_msg(self.metadata)->0, self.signatures@[j0]));
                             assert(counted_ok(*self, keys0, *key_id));
+                            assert(good_id(*self, keys0, *key_id));
+                            assert(good_ids(*self, keys0).contains(*key_id));
                             assert(!counted.contains(*key_id));
                             counted = counted.insert(*key_id);
                         }
 //@before /return Err\(Error::VerificationFailure\(format!\(/
+            assert(!verify_ok(*self, threshold, keys0)) by {
+                let msg = vstd::utf8::encode_utf8(metadata@);
+                assert forall|id: KeyId| good_ids(*self, keys0).contains(id) implies counted.contains(id) by {
+                    assert(sigmap.contains_key(&id));
+                    assert(authmap.contains_key(&id));
+                    assert(authmap[&id].sig_ok(msg, *sigmap[&id]));
+                }
+                vstd::set_lib::lemma_len_subset(good_ids(*self, keys0), counted);
+            }
             assert(!(sig_ids_distinct(self.signatures@) && key_ids_distinct(keys0)
                     && exists|good: Set<KeyId>| good.len() >= threshold && forall|id: KeyId| good.contains(id) ==> counted_ok(*self, keys0, id))) by {
                 if sig_ids_distinct(self.signatures@) && key_ids_distinct(keys0)
@@ -86,3 +127,5 @@
                     assert(false);
                 }
             }
+//@before /Ok\(self\.metadata\.clone\(\)\)/
+        proof { vstd::set_lib::lemma_len_subset(counted, good_ids(*self, keys0)); }
